@@ -1159,6 +1159,11 @@ extern "C" int __wrap_open(const char *path, int flags, ...) {
     errno = EACCES;
     return -1;
   }
+  if (G.files[fi].kind == 4 && (wr || (flags & O_NOATIME))) {
+    // somebody else's file: readable, but neither writable nor open to O_NOATIME (only the owner may ask for that)
+    errno = wr ? EACCES : EPERM;
+    return -1;
+  }
   if (G.files[fi].kind == 2 && wr) {
     errno = EISDIR;
     return -1;
@@ -1585,7 +1590,7 @@ extern "C" FILE *__wrap_fopen(const char *path, const char *mode) {
       errno = EISDIR;
       return nullptr;
     }
-    if (fi >= 0 && G.files[fi].kind == 1) {
+    if (fi >= 0 && (G.files[fi].kind == 1 || G.files[fi].kind == 4)) {  // (writing: no permission / somebody else's file)
       delete os;
       errno = EACCES;
       return nullptr;
